@@ -744,10 +744,7 @@ def m_extent( ctx ):
         raise AnalysisError( 'merge: running ( base, length ) initialisation not found' )
     base, length = running
     # the merge branch: an If inside the loop whose body ends with `continue`
-    merges = [ n for n in ast.walk( loop ) if isinstance( n, ast.If ) and n.body and isinstance( n.body[-1], ast.Continue ) ]
-    if len( merges ) != 1:
-        raise AnalysisError( 'merge: merge branch (if ...: ...; continue) not found' )
-    mb = merges[0]
+    mb = _merge_branch( fn, length )
     updates = [ s for s in mb.body if isinstance( s, ( ast.Assign, ast.AugAssign ))
                 and any( isinstance( t, ast.Name ) and t.id == length for t in ( s.targets if isinstance( s, ast.Assign ) else [ s.target ] )) ]
     cond_updates = [ s for b in mb.body if isinstance( b, ast.If ) for s in ast.walk( b )
@@ -821,6 +818,17 @@ def m_tile( ctx ):
     return res
 
 
+def _merge_branch( fn, length ):
+    """the merge branch of merge(): the If whose body ends with `continue` and stores the running length ( an `if not count: continue`
+    that skips an empty range is not it )"""
+    merges = [ n for n in ast.walk( fn ) if isinstance( n, ast.If ) and n.body and isinstance( n.body[-1], ast.Continue )
+               and any( isinstance( s_, ( ast.Assign, ast.AugAssign )) and any( isinstance( t_, ast.Name ) and t_.id == length
+                        for tg_ in ( s_.targets if isinstance( s_, ast.Assign ) else [ s_.target ] ) for t_ in ast.walk( tg_ )) for b_ in n.body for s_ in ast.walk( b_ )) ]
+    if len( merges ) != 1:
+        raise AnalysisError( 'merge: merge branch (if ...: length = ...; continue) not found' )
+    return merges[0]
+
+
 def _merge_roles( fn ):
     """( base, length, address, count ) local names of merge(): the running pair is the tuple assigned from next( ... ) before the sweep loop,
     the swept pair is the loop target"""
@@ -830,6 +838,51 @@ def _merge_roles( fn ):
     if not run or not lps:
         raise AnalysisError( 'merge: running ( base, length ) pair or sweep loop not found' )
     return tuple( e.id for e in run[0].targets[0].elts ) + tuple( e.id for e in lps[0].target.elts )
+
+
+@rule( 'M-SNAPSHOT', props=( 'C19', ), floor=1 )
+def m_snapshot( ctx ):
+    """poller_modbus._poller: the requested addresses handed to merge() are a SNAPSHOT of self._data taken by one builtin call ( list / tuple /
+    sorted / set / frozenset ( self._data ) or self._data.copy() ): the dict is extended by poll() / read() from other threads without a lock,
+    and merge pulls its argument item by item - an iteration over the live dict raises RuntimeError in the poller thread, outside every try:
+    the thread dies and no requested register is polled again"""
+    res = Result( 'M-SNAPSHOT' )
+    src = ctx.src( MODBUS )
+    fn = src.get( 'poller_modbus._poller' )
+    calls = [ c for c in ast.walk( fn ) if is_call_to( c, 'merge' ) ]
+    if not calls:
+        raise AnalysisError( 'poller_modbus._poller: call of merge() not found' )
+    SNAP = ( 'list', 'tuple', 'sorted', 'set', 'frozenset' )
+    def snapshot_( e ):
+        if isinstance( e, ast.Call ) and call_name( e ) in SNAP and len( e.args ) == 1:
+            a = e.args[0]
+            return dotted( a ) == 'self._data' or ( isinstance( a, ast.Call ) and dotted( a.func ) in ( 'self._data.keys', 'self._data.copy' )) or snapshot_( a )
+        return isinstance( e, ast.Call ) and dotted( e.func ) == 'self._data.copy'
+    for c in calls:
+        arg = c.args[0] if c.args else None
+        live = []
+        for n in ( ast.walk( arg ) if arg is not None else () ):
+            if isinstance( n, ast.comprehension ):
+                it = n.iter
+                if 'self._data' in { dotted( x ) for x in ast.walk( it ) if isinstance( x, ast.Attribute ) } and not snapshot_( it ):
+                    live.append( it )
+        if arg is not None and dotted( arg ) == 'self._data':
+            live.append( arg )
+        # a local bound to a snapshot earlier is fine; a local bound to the dict itself is not
+        if isinstance( arg, ast.Name ):
+            ds = [ a_.value for a_ in ast.walk( fn ) if isinstance( a_, ast.Assign ) and any( isinstance( t_, ast.Name ) and t_.id == arg.id for t_ in a_.targets ) ]
+            for d_ in ds:
+                for n in ast.walk( d_ ):
+                    if isinstance( n, ast.comprehension ) and 'self._data' in { dotted( x ) for x in ast.walk( n.iter ) if isinstance( x, ast.Attribute ) } and not snapshot_( n.iter ):
+                        live.append( n.iter )
+                if dotted( d_ ) == 'self._data':
+                    live.append( d_ )
+        if live:
+            res.bad( src, c, 'merge() is fed from an iteration over the live self._data ( %s )' % norm_text( live[0] ),
+                     'poll() / read() add addresses from other threads without a lock; pulled item by item ( merge sorts its argument ) the iteration raises "dictionary changed size during iteration" in the poller thread, which dies: nothing is polled again' )
+        else:
+            res.ok( src, c, 'the addresses merged are a snapshot of self._data taken by one builtin call' )
+    return res
 
 
 @rule( 'M-PIECES', props=( 'C19', ), floor=2 )
@@ -923,24 +976,61 @@ def m_bank( ctx ):
             raise AnalysisError( 'merge: the sorted sweep is not over the ranges argument itself: %s' % norm_text( srt[0] ))
     else:
         res.bad( src, fn, 'merge', 'ranges must be sorted before the sweep' )
-    merges = [ n for n in ast.walk( fn ) if isinstance( n, ast.If ) and n.body and isinstance( n.body[-1], ast.Continue ) ]
-    if len( merges ) != 1:
-        raise AnalysisError( 'merge: merge branch not found' )
-    t = merges[0].test
-    conj = t.values if isinstance( t, ast.BoolOp ) and isinstance( t.op, ast.And ) else [ t ]
-    bank = [ c for c in conj if isinstance( c, ast.Compare ) and isinstance( c.ops[0], ast.Eq )
-             and all( isinstance( x, ast.BinOp ) and isinstance( x.op, ast.FloorDiv ) and try_fold( x.right ) == 10000
-                      for x in [ c.left, c.comparators[0] ] ) ]
-    reach = [ c for c in conj if isinstance( c, ast.Compare ) and isinstance( c.ops[0], ( ast.Lt, ast.LtE, ast.Gt, ast.GtE )) and 'reach' in names_in( c ) ]
-    extra = [ c for c in conj if c not in bank and c not in reach ]
-    if extra:
-        res.bad( src, extra[0], extra[0], 'an additional condition restricts merging: ranges of one bank that overlap or lie within reach must always merge, else the output is no longer sorted and pairwise disjoint (registers transferred twice)' )
-    elif len( bank ) == 1 and len( reach ) == 1:
-        res.ok( src, t, 'merge iff same 10000-bank and within reach: ' + norm_text( t ))
-    elif not bank:
-        res.bad( src, t, t, 'ranges of different register banks (address // 10000) must never merge' )
+    B, L, A, C = _merge_roles( fn )
+    t = _merge_branch( fn, L ).test
+    # ---- the merge condition, decided as a table: the test is evaluated for every cell of a grid of ( running range, next start, reach ) and
+    # compared with what the property demands of a sweep over sorted ranges:
+    #   the next range begins INSIDE the running one          -> merge, whatever the 10000-block ( else the output overlaps / is unsorted )
+    #   same 10000-block, gap below the reach ( at least 1 )  -> merge
+    #   same block, gap of reach or more                      -> no merge ( registers farther than reach from any request would be read )
+    #   another block, no overlap                             -> no merge ( ranges of different register kinds )
+    RP = [ a_.arg for a_ in fn.args.args ]
+    RCH = 'reach' if 'reach' in RP else None
+    if RCH is None:
+        raise AnalysisError( 'merge: reach parameter not found' )
+    cells = bad_cells = 0
+    first_bad = None
+    for base_ in ( 1, 40001, 49990, 329996 ):
+        for len_ in ( 1, 5, 20 ):
+            for rch_ in ( 1, 5, 100, None, 0 ):
+                eff = rch_ or 1
+                for off_ in ( -len_ + 1 if len_ > 1 else 0, -1, 0, eff - 1, eff, eff + 7, 10000 ):
+                    addr_ = base_ + len_ + off_
+                    if addr_ < base_ or ( off_ < 0 and len_ + off_ < 0 ):
+                        continue
+                    overlap = addr_ < base_ + len_
+                    same = addr_ // 10000 == base_ // 10000
+                    want = overlap or ( same and addr_ < base_ + len_ + eff )
+                    got = try_fold( t, { B: base_, L: len_, A: addr_, C: 1, RCH: rch_ }, default=NoFold )
+                    if got is NoFold:
+                        raise AnalysisError( 'merge: merge condition cannot be evaluated: %s' % norm_text( t ))
+                    cells += 1
+                    if bool( got ) != want:
+                        bad_cells += 1
+                        if first_bad is None:
+                            first_bad = ( base_, len_, addr_, rch_, bool( got ), want, overlap, same )
+    if first_bad is None:
+        res.ok( src, t, 'merge iff the next range begins inside the running one, or in the same 10000-block within reach ( %d cells ): %s' % ( cells, norm_text( t )))
     else:
-        res.bad( src, t, t, 'merging must be limited to ranges within reach' )
+        b_, l_, a_, r_, g_, w_, ov_, sm_ = first_bad
+        why = ( 'a range that begins inside the range being built must merge ( whatever its 10000-block ): else the output is no longer sorted and pairwise disjoint, registers are transferred twice' if ov_ and not g_
+                else 'ranges of different 10000-blocks ( register kinds ) must never be bridged by the reach' if g_ and not sm_
+                else 'ranges of one block within reach must merge' if w_ and not g_
+                else 'a gap of the reach or more must not be bridged: registers farther than reach from every requested one would be read' )
+        res.bad( src, t, 'merge condition: %s' % norm_text( t ), '%s ( %d of %d cells differ; e.g. running ( %d, %d ), next start %d, reach %r: merges=%s, expected %s )' % ( why, bad_cells, cells, b_, l_, a_, r_, g_, w_ ))
+    # ---- an EMPTY range ( count 0 ) requests no register and must not extend the running range: either it is skipped ahead of the merge
+    # branch, or the merge condition is false for it
+    lp_ = [ s_ for s_ in fn.body if isinstance( s_, ast.For ) and any( _merge_branch( fn, L ) is x_ for x_ in ast.walk( s_ )) ][0]
+    top_ = [ s_ for s_ in lp_.body if any( _merge_branch( fn, L ) is x_ for x_ in ast.walk( s_ )) ][0]
+    skips = [ s_ for s_ in lp_.body[:lp_.body.index( top_ )] if isinstance( s_, ast.If ) and s_.body and isinstance( s_.body[-1], ast.Continue ) and not s_.orelse
+              and try_fold( s_.test, { C: 0 }, default=NoFold ) is not NoFold and bool( try_fold( s_.test, { C: 0 } )) and not bool( try_fold( s_.test, { C: 1 }, default=True )) ]
+    empty_merges = try_fold( t, { B: 40001, L: 1, A: 40002, C: 0, RCH: 5 }, default=NoFold )
+    if skips:
+        res.ok( src, skips[0], 'an empty range is skipped before it can extend the running range ( %s )' % norm_text( skips[0].test ))
+    elif empty_merges is not NoFold and not empty_merges:
+        res.ok( src, t, 'the merge condition is false for an empty range' )
+    else:
+        res.bad( src, t, 'an empty range ( count 0 ) within reach extends the range being built', 'the running length is stretched to the address of a range that requests no register: a chain of them makes the poller read registers far beyond the reach of anything requested' )
     # the empty request: a generator must end, not raise - a bare next( it ) on an exhausted iterator inside a generator body becomes
     # RuntimeError( "generator raised StopIteration" ) (PEP 479)
     bare = [ c_ for c_ in walk_no_nested( fn ) if is_call_to( c_, 'next' ) and len( c_.args ) == 1 and not c_.keywords
@@ -950,41 +1040,6 @@ def m_bank( ctx ):
         res.bad( src, bare[0], '%s in the generator merge(), unguarded' % norm_text( bare[0] ), 'merging an EMPTY set of ranges must yield nothing; an unguarded next() on the exhausted iterator raises StopIteration inside the generator, which Python turns into RuntimeError' )
     else:
         res.ok( src, fn, 'merge of an empty set of ranges ends the generator (no unguarded next())' )
-    if reach:
-        c = reach[0]
-        # address < base + length + ( reach or 1 )   (strict '<' with reach>=1 means adjacent ranges merge, gap of `reach` does not)
-        B, L, A, C = _merge_roles( fn )
-        # decided on the linear normal form, with single-definition locals of the loop body expanded: for integers  a <= b  is  a < b + 1
-        from .rules_paths import linear, _canon
-        defs1 = {}
-        for s_ in ast.walk( fn ):
-            if isinstance( s_, ast.Assign ) and isinstance( s_.targets[0], ast.Name ) and s_.targets[0].id not in ( B, L, A, C ):
-                defs1.setdefault( s_.targets[0].id, [] ).append( s_.value )
-        def expand( e, depth=0 ):
-            class Sub( ast.NodeTransformer ):
-                def visit_Name( self, n_ ):
-                    if depth < 3 and n_.id in defs1 and len( defs1[n_.id] ) == 1:
-                        return expand( defs1[n_.id][0], depth + 1 )
-                    return n_
-            return Sub().visit( ast.parse( ast.unparse( e ), mode='eval' ).body )
-        lhs, op_, rhs = c.left, c.ops[0], c.comparators[0]
-        if isinstance( op_, ( ast.Gt, ast.GtE )):
-            lhs, rhs = rhs, lhs
-            op_ = ast.Lt() if isinstance( op_, ast.Gt ) else ast.LtE()
-        ll, lr = linear( expand( lhs )), linear( expand( rhs ))
-        sem_ok = False
-        if ll is not None and lr is not None:
-            diff = dict( lr )
-            for k_, v_ in ll.items():
-                diff[k_] = diff.get( k_, 0 ) - v_
-            if isinstance( op_, ast.LtE ):
-                diff[''] = diff.get( '', 0 ) + 1
-            want = [ { B: 1, L: 1, A: -1, 'reachor1': 1 }, { B: 1, L: 1, A: -1, 'reach': 1 } ]
-            sem_ok = any( _canon( { k_.replace( ' ', '' ).replace( '(', '' ).replace( ')', '' ): v_ for k_, v_ in diff.items() } ) == _canon( w_ ) for w_ in want )
-        if sem_ok:
-            res.ok( src, c, c )
-        else:
-            res.bad( src, c, c, 'reach test must be address < base + length + reach' )
     return res
 
 
